@@ -540,6 +540,20 @@ func checkHobGuid(run *vk.Run) {
 			run.Violation("hob-guid", fmt.Sprintf("GUID HOB with %d data bytes is not header(8)+guid(16)+data+zero padding to 8 bytes (len %d)", n, len(b)), nil)
 		}
 		run.Case(fmt.Sprintf("hobguid:%d", n), true)
+		// the same data handed over as a sub-slice of a larger buffer (a log, a firmware image, a reused
+		// scratch buffer): what lies behind the data is not part of it, the padding is zero all the same
+		big := bytes.Repeat([]byte{0xee}, n+24)
+		copy(big, data)
+		h2, err := oabi.CreateEFIHOBGUID(g, big[:n])
+		if err != nil {
+			run.Violation("hob-guid", fmt.Sprintf("CreateEFIHOBGUID refuses %d bytes given as a sub-slice: %v", n, err), nil)
+			continue
+		}
+		var w2 bytes.Buffer
+		if _, err := h2.WriteTo(&w2); err != nil || !bytes.Equal(w2.Bytes(), b) {
+			run.Violation("hob-guid:subslice", fmt.Sprintf("GUID HOB with %d data bytes given as a sub-slice of a larger buffer serialises to other bytes than for the same data alone (the padding is not zero, or the data differ): error %v", n, err), nil)
+		}
+		run.Case(fmt.Sprintf("hobguid-subslice:%d", n), true)
 	}
 }
 
@@ -657,6 +671,42 @@ func checkTCG(run *vk.Run, e *Exported, r *rand.Rand) {
 			viol("strictness:record", "a TCG_PCR_EVENT2 record whose SP800-155 Event3 payload is followed by non-zero bytes is accepted")
 		}
 		run.Case(fmt.Sprintf("sp800155:%d", k), true)
+	}
+	// a whole log (header record, then TCG_PCR_EVENT2 records with one, two and no digests): every prefix
+	// of its bytes that the log decoder accepts re-encodes to exactly those bytes -- a log cut inside a
+	// record is refused, not taken for a shorter log
+	{
+		dg := func(alg uint16, n int, fill byte) *eventlog.TaggedDigest {
+			return &eventlog.TaggedDigest{AlgID: alg, Digest: bytes.Repeat([]byte{fill}, n)}
+		}
+		mk := func(pcr uint32, data int, ds ...*eventlog.TaggedDigest) *eventlog.TCGPCREvent2 {
+			return &eventlog.TCGPCREvent2{PCRIndex: pcr, EventType: 0x80000001, Digests: eventlog.Uint32SizedArrayT[*eventlog.TaggedDigest]{Array: ds},
+				EventData: eventlog.TCGEventData{Event: &eventlog.UnknownEvent{Data: bytes.Repeat([]byte{'d'}, data)}}}
+		}
+		lg := &eventlog.CryptoAgileLog{Header: eventlog.TCGPCClientPCREvent{}, Events: []*eventlog.TCGPCREvent2{
+			mk(0, 5, dg(0xb, 32, 0x5a)), mk(1, 0, dg(0xb, 32, 0x11), dg(0xc, 48, 0x22)), mk(2, 9), mk(3, 1, dg(0xc, 48, 0x33))}}
+		var full bytes.Buffer
+		if err := lg.Marshal(&full); err != nil {
+			viol("marshal:log", "a four-record log does not serialise: %v", err)
+		} else {
+			fb := full.Bytes()
+			for cut := 0; cut <= len(fb); cut++ {
+				got := &eventlog.CryptoAgileLog{}
+				_, derr := safe(func() (int, error) { return 0, got.Unmarshal(bytes.NewReader(fb[:cut])) })
+				if derr != nil {
+					if cut == len(fb) {
+						viol("roundtrip:log", "the log decoder refuses a log the encoder wrote: %v", derr)
+					}
+					continue
+				}
+				var re bytes.Buffer
+				if err := got.Marshal(&re); err != nil || !bytes.Equal(re.Bytes(), fb[:cut]) {
+					viol("strictness:log-cut-inside-record", "a log cut after %d of %d bytes (inside a record) is accepted as a log of %d records that re-encodes to %d bytes: the cut record is silently dropped", cut, len(fb), len(got.Events), re.Len())
+					break
+				}
+			}
+			run.Case("log:every-prefix", true)
+		}
 	}
 	// an event whose own first fields spell the signature bytes is an event like any other
 	{
